@@ -702,13 +702,13 @@ package erpc
 //@   modifies allof(type(callCmd)), waitgroups, channels, mapviews, ghost.callSweeps
 //@   ghostset ghost.callSweeps = old(ghost.callSweeps) + 1
 //@ func (*session).readDisconnected
-//@   property C02 C08 C13
-//@   ensures[session-ends-when-redial-gives-up] @C13 old(s.status) != statusPassiveClosed && old(s.status) != statusActiveClosed && old(s.status) != statusPassiveClosing && old(s.status) != statusActiveClosing && !ghost.lastRedialOK ==> s.status == statusPassiveClosed && s.didCloseNotify == 1 && ghost.postDisconnectRuns == old(ghost.postDisconnectRuns) + 1
-//@   ensures[session-kept-when-redial-succeeds] @C13 old(s.status) != statusPassiveClosed && old(s.status) != statusActiveClosed && old(s.status) != statusPassiveClosing && old(s.status) != statusActiveClosing && ghost.lastRedialOK ==> ghost.postDisconnectRuns == old(ghost.postDisconnectRuns)
+//@   property C02 C08 C13 C07
+//@   ensures[session-ends-when-redial-gives-up] @C13 @C07 old(s.status) != statusPassiveClosed && old(s.status) != statusActiveClosed && old(s.status) != statusPassiveClosing && old(s.status) != statusActiveClosing && !ghost.lastRedialOK ==> s.status == statusPassiveClosed && s.didCloseNotify == 1 && ghost.postDisconnectRuns == old(ghost.postDisconnectRuns) + 1
+//@   ensures[session-kept-when-redial-succeeds] @C13 @C07 old(s.status) != statusPassiveClosed && old(s.status) != statusActiveClosed && old(s.status) != statusPassiveClosing && old(s.status) != statusActiveClosing && ghost.lastRedialOK ==> ghost.postDisconnectRuns == old(ghost.postDisconnectRuns)
 //@   ensures[graceful-close-not-disturbed] @C08 old(s.status) == statusActiveClosing ==> s.status == statusActiveClosing
 //@   flags libframe frame-unchecked
-//@   requires @C02 @C08 @C13 sessInv(s)
-//@   requires?[session-lock-free] @C02 @C08 @C13 !held(addr(s.lock))
+//@   requires @C02 @C08 @C13 @C07 sessInv(s)
+//@   requires?[session-lock-free] @C02 @C08 @C13 @C07 !held(addr(s.lock))
 //@   modifies allof(type(session)), allof(type(socket.socket)), allof(type(callCmd)), lockset, waitgroups, channels, mapviews, ghost.callSweeps, ghost.disconnectRuns, ghost.postDisconnectRuns, ghost.lastRedialOK, ghost.redialRuns, ghost.dialAttempts, ghost.lastHookOK
 //@   ghostset ghost.disconnectRuns = old(ghost.disconnectRuns) + 1
 //@   ensures[pending-calls-swept] @C02 old(s.status) != statusPassiveClosed && old(s.status) != statusActiveClosed && old(s.status) != statusPassiveClosing ==> ghost.callSweeps == old(ghost.callSweeps) + 1
